@@ -140,9 +140,11 @@ Definition check_debounce (d : Z) (l got : list (Z * Z)) : bool := eqb_runs (deb
 
    epochs(x, pad) for pad >= 0, as written:
        start = ts(edge_rising(x)); end = ts(edge_falling(x))
-       for s in start: x[s-pad:s] = 1          (a NEGATIVE s-pad wraps, as any Python slice bound does)
-       for e in end:   x[e:e+pad] = 1
+       if pad:
+           for s in start: x[s-pad:s] = 1      (a NEGATIVE s-pad wraps, as any Python slice bound does)
+           for e in end:   x[e:e+pad] = 1
        ... then exactly the pad = 0 code on the modified x (which is the CALLER's array).
+   For pad = 0 both slices are empty, so pad_apply 0 x = x also describes the guarded code.
    The slices are fixed by the edges of the original x and only ever write 1, so the order of the
    assignments does not matter. *)
 From PV Require Import Common.PySlice.
@@ -154,7 +156,9 @@ Definition pad_apply (pad : Z) (x : list bool) : list bool :=
 Definition epochs_pad_model (pad : Z) (x : list bool) : option (list (Z * Z)) :=
   epochs_model (pad_apply pad x).
 
-(* a read-only array: the (possibly empty) slice assignment raises as soon as there is one edge *)
+(* a read-only array with pad <> 0: the (possibly empty) slice assignment raises as soon as there is one edge
+   (with pad = 0 the code does not write at all since the repair recorded in known_findings.txt, so a read-only
+   array is then an ordinary input: epochs_model) *)
 Definition epochs_ro_model (x : list bool) : option (list (Z * Z)) :=
   match rising x, falling x with
   | [], [] => epochs_model x
